@@ -243,7 +243,8 @@ def finish(ctx):
     with open(os.path.join(EVIDENCE, ctx.prop + ".json"), "w") as f:
         json.dump(ev, f, indent=1, default=str)
     for v, k in known_hits[:20]:
-        print(f"KNOWN-FINDING: property={ctx.prop} {k['text']}")
+        what = k["text"].split(" ", 3)[3] if k["text"].count(" ") >= 3 else k["text"]
+        print(f"KNOWN-FINDING: property={ctx.prop} sig={k['sig']} {what}")
     shown = 0
     for i, v in enumerate(real):
         if shown >= 25:
@@ -1169,7 +1170,7 @@ def check_C19(ctx):
         for (o, c) in (("(", ")"), ("(?:", ")"), ("(", ")+"), ("(?:x|", ")")):
             deep.append((d, '#[regex("' + o * d + "a" + c * d + '")]'))
     exe = build_harness()
-    res_stats = {"panicked": 0, "resource_limit": 0, "finished": 0, "depth_specimens": len(deep), "depth_accepted": 0, "depth_rejected": 0, "max_depth_accepted": 0}
+    res_stats = {"panicked": 0, "resource_limit": 0, "finished": 0, "depth_specimens": len(deep), "recursive_type_specimens": 4, "depth_accepted": 0, "depth_rejected": 0, "max_depth_accepted": 0}
     def run_depth(item):
         k, (d, attr) = item
         src = f"#[derive(Logos)]\nenum T {{\n    {attr}\n    A,\n    #[token(\"q\")]\n    B,\n}}\n"
@@ -1180,12 +1181,26 @@ def check_C19(ctx):
             return d, attr, p.returncode, p.stdout
         except subprocess.TimeoutExpired:
             return d, attr, None, "TIMEOUT"
+    # concrete types defined in terms of themselves: substitution must not recurse without end
+    rec_sources = ['#[derive(Logos)]\n#[logos(type T = Option<T>)]\nenum Tok<T> {\n    #[token("a", |_| None)]\n    A(T),\n    #[token("b")]\n    B,\n}\n',
+                   '#[derive(Logos)]\n#[logos(type T = Vec<U>, type U = (u8, T))]\nenum Tok<T, U> {\n    #[token("a", cb)]\n    A(T),\n    #[token("b", cb2)]\n    B(U),\n}\n',
+                   '#[derive(Logos)]\n#[logos(type U = T, type T = U)]\nenum Tok<\'a, T, U> {\n    #[token("a")]\n    A(&\'a str),\n    #[token("b", cb2)]\n    B(U),\n}\n',
+                   '#[derive(Logos)]\n#[logos(type T = T)]\nenum Tok<T> {\n    #[token("b", cb2)]\n    B(T),\n}\n']
+    def run_rec(item):
+        k, src = item
+        fp = os.path.join(sdir, f"rec{k}.rs")
+        open(fp, "w").write(src)
+        try:
+            p = subprocess.run([exe, "show", "--file", fp, "--stack-kib", "2048", "--brief"], env=env_base(), timeout=600, stdout=subprocess.PIPE, stderr=subprocess.STDOUT, text=True, errors="replace")
+            return -1, src, p.returncode, p.stdout
+        except subprocess.TimeoutExpired:
+            return -1, src, None, "TIMEOUT"
     with ThreadPoolExecutor(max_workers=NCPU) as ex:
-        for d, attr, rc, out in ex.map(run_depth, enumerate(deep)):
+        for d, attr, rc, out in list(ex.map(run_depth, enumerate(deep))) + list(ex.map(run_rec, enumerate(rec_sources))):
             ctx.coverage["evaluations"] += 1
-            brief = attr[:40] + f"...(nesting depth {d})"
+            brief = attr[:40] + f"...(nesting depth {d})" if d >= 0 else attr
             if "overflowed its stack" in out or (rc is not None and rc < 0 and -rc in (signal.SIGSEGV, signal.SIGBUS)):
-                ctx.add_violation({"property": "C19", "level": "L", "rule": "derive-overflowed-stack", "detail": f"pattern nested {d} deep: the derive overflowed a 2 MiB stack instead of finishing or rejecting: {out.strip()[-160:]}", "definition": {"source": brief}})
+                ctx.add_violation({"property": "C19", "level": "L", "rule": "derive-overflowed-stack", "detail": (f"pattern nested {d} deep" if d >= 0 else "self-referential concrete type") + f": the derive overflowed a 2 MiB stack instead of finishing or rejecting: {out.strip()[-160:]}", "definition": {"source": brief}})
             elif "Panicked(" in out:
                 ctx.add_violation({"property": "C19", "level": "L", "rule": "derive-panicked", "detail": out[out.index("Panicked("):][:300], "definition": {"source": brief}})
             elif rc is None:
@@ -1228,7 +1243,7 @@ def check_C19(ctx):
     diags = {}
     saw_compiler = False
     stderr_tail = ""
-    for sub in ("acc", "rej"):
+    for sub in ("acc", "mal", "rej"):
         try:
             p = subprocess.run(["cargo", "+stable", "build", "--offline", "--message-format=json"], cwd=os.path.join(rdir, sub), env=e, timeout=3000, stdout=subprocess.PIPE, stderr=subprocess.PIPE, text=True, errors="replace")
         except subprocess.TimeoutExpired:
